@@ -3,7 +3,7 @@
    returns one tree rooted at SOURCE_FILE. *)
 From Coq Require Import NArith ZArith Arith List Bool Lia.
 From OQ3 Require Import gen.Kinds Model.Lexer Model.Lexed Model.Parser Model.Grammar Model.Builder
-  Proofs.MarkerB Proofs.ProcessB.
+  Proofs.MarkerB Proofs.ProcessB Proofs.JointB.
 Import ListNotations.
 Local Open Scope nat_scope.
 
@@ -123,6 +123,7 @@ Variable starts : list N.
 Notation blen := (blen_tokens texts).
 Notation kindi := (kind_i kinds).
 
+Variable inp : list (N * bool).       (* the parser input built from the same table *)
 Definition ntriv (i : nat) : bool := negb (is_trivia (kindi i)).
 (* number of non-trivia raw tokens among the first b *)
 Definition cnt_nt (b : nat) : nat := length (filter ntriv (seq 0 b)).
@@ -141,26 +142,30 @@ Proof.
   pose proof (cnt_nt_add b (blen - b)) as Ha. replace (b + (blen - b)) with blen in Ha by lia. lia.
 Qed.
 
+(* a joint, non-float parser token is directly followed by a non-trivia raw token *)
+Hypothesis Hadj : forall r, r < blen -> ntriv r = true -> adj inp (cnt_nt r) ->
+  r + 1 < blen /\ ntriv (r + 1) = true.
+
 Lemma eat_trivias_ok fuel : forall b,
   blen - bpos b <= fuel -> bpos b <= blen ->
   exists b' tr, eat_trivias kinds texts fuel b = BOk b' /\ bpos b <= bpos b' <= blen /\
     cnt_nt (bpos b') = cnt_nt (bpos b) /\ bstate_ b' = bstate_ b /\ bout b' = tr ++ bout b /\
-    (forall x, In x tr -> is_stoken x).
+    (forall x, In x tr -> is_stoken x) /\ (bpos b' = blen \/ ntriv (bpos b') = true).
 Proof.
   induction fuel as [|f IH]; intros b Hf Hb.
-  - exists b, []. cbn [eat_trivias app]. split; [reflexivity|split; [lia|split; [reflexivity|split; [reflexivity|split; [reflexivity|intros x []]]]]].
+  - exists b, []. cbn [eat_trivias app]. split; [reflexivity|split; [lia|split; [reflexivity|split; [reflexivity|split; [reflexivity|split; [intros x []|left; lia]]]]]].
   - cbn [eat_trivias]. destruct (bpos b <? blen) eqn:E1; cbn [andb];
-      [|exists b, []; cbn [app]; split; [reflexivity|split; [lia|split; [reflexivity|split; [reflexivity|split; [reflexivity|intros x []]]]]]].
+      [|exists b, []; cbn [app]; split; [reflexivity|split; [lia|split; [reflexivity|split; [reflexivity|split; [reflexivity|split; [intros x []|left; apply Nat.ltb_ge in E1; lia]]]]]]].
     apply Nat.ltb_lt in E1.
     destruct (is_trivia (kindi (bpos b))) eqn:E2;
-      [|exists b, []; cbn [app]; split; [reflexivity|split; [lia|split; [reflexivity|split; [reflexivity|split; [reflexivity|intros x []]]]]]].
+      [|exists b, []; cbn [app]; split; [reflexivity|split; [lia|split; [reflexivity|split; [reflexivity|split; [reflexivity|split; [intros x []|right; unfold ntriv; rewrite E2; reflexivity]]]]]]].
     unfold do_token. cbn [Nat.ltb Nat.leb andb].
     replace (bpos b + 1 <=? blen) with true by (symmetry; apply Nat.leb_le; lia). cbn [andb].
     set (b1 := {| bpos := bpos b + 1; bstate_ := bstate_ b;
                   bout := SToken (kindi (bpos b)) (concat (firstn 1 (skipn (bpos b) texts))) :: bout b |}).
-    destruct (IH b1) as [b' [tr [E [Hp [Hc [Hs [Ho Ht]]]]]]]; [cbn; lia|cbn; lia|].
+    destruct (IH b1) as [b' [tr [E [Hp [Hc [Hs [Ho [Ht Hstop]]]]]]]]; [cbn; lia|cbn; lia|].
     exists b', (tr ++ [SToken (kindi (bpos b)) (concat (firstn 1 (skipn (bpos b) texts)))]).
-    split; [exact E|]. cbn [bpos bstate_ bout b1] in *. split; [lia|split; [|split; [exact Hs|split]]].
+    split; [exact E|]. cbn [bpos bstate_ bout b1] in *. split; [lia|split; [|split; [exact Hs|split; [|split; [|exact Hstop]]]]].
     + rewrite Hc. replace (bpos b + 1) with (S (bpos b)) by lia. rewrite cnt_nt_S. unfold ntriv. rewrite E2. cbn. lia.
     + rewrite Ho, <- app_assoc. reflexivity.
     + intros x Hx. apply in_app_or in Hx. destruct Hx as [Hx|[<-|[]]]; [apply Ht; exact Hx|eexists _, _; reflexivity].
@@ -169,7 +174,7 @@ Qed.
 Definition pend (b : bst) : Z := match bstate_ b with PendingExit => 1 | _ => 0 end%Z.
 (* [so]: the steps processed so far, newest first *)
 Definition INVB (b : bst) (so : list step) : Prop :=
-  bstate_ b <> PendingEnter /\ bpos b <= blen /\ cnt_nt (bpos b) <= stoksum so /\
+  bstate_ b <> PendingEnter /\ bpos b <= blen /\ cnt_nt (bpos b) = stoksum so /\
   (ssdepth (bout b) - pend b = sdepth so)%Z /\ GoodS (bout b) /\ EndsS (bout b).
 
 Lemma goodout_suffix a b : GoodOut (a ++ b) -> GoodOut b.
@@ -187,7 +192,8 @@ Lemma flush_ok b so :
   exists b2, eat_trivias kinds texts blen
                (set_state Normal (match bstate_ b with PendingExit => emit SExit b | _ => b end)) = BOk b2 /\
     bstate_ b2 = Normal /\ bpos b <= bpos b2 <= blen /\ cnt_nt (bpos b2) = cnt_nt (bpos b) /\
-    ssdepth (bout b2) = sdepth so /\ GoodS (bout b2) /\ EndsS (bout b2).
+    ssdepth (bout b2) = sdepth so /\ GoodS (bout b2) /\ EndsS (bout b2) /\
+    (bpos b2 = blen \/ ntriv (bpos b2) = true).
 Proof.
   intros [Hst [Hb [Hc [Hd [HG HE]]]]] HGo HEo.
   pose proof (goodout_nonempty_depth _ HGo HEo) as Hso.
@@ -197,60 +203,82 @@ Proof.
   { unfold b1, pend in *. destruct (bstate_ b); cbn [set_state emit bout] in *; try (split; [lia|split; auto]).
     cbn [ssdepth ssctr GoodS]. split; [lia|split; [split; [cbn [ssdepth ssctr]; lia|exact HG]|]].
     apply (ends_app [SExit]). exact HE. }
-  destruct (eat_trivias_ok blen b1) as [b2 [tr [E [Hp [Hc2 [Hs [Ho Ht]]]]]]]; [lia|lia|].
+  destruct (eat_trivias_ok blen b1) as [b2 [tr [E [Hp [Hc2 [Hs [Ho [Ht Hstop]]]]]]]]; [lia|lia|].
   exists b2. split; [exact E|]. destruct (goods_tokens tr (bout b1) Ht HG1 ltac:(lia)) as [G1 G2].
   rewrite Ho. split; [rewrite Hs; unfold b1; reflexivity|].
-  split; [lia|split; [rewrite Hc2, Hp1; reflexivity|split; [lia|split; [exact G1|apply ends_app; exact HE1]]]].
+  split; [lia|split; [rewrite Hc2, Hp1; reflexivity|split; [lia|split; [exact G1|split; [apply ends_app; exact HE1|exact Hstop]]]]].
+Qed.
+
+Lemma cnt_nt_step r : ntriv r = true -> cnt_nt (r + 1) = cnt_nt r + 1.
+Proof. intros H. replace (r + 1) with (S r) by lia. rewrite cnt_nt_S, H. reflexivity. Qed.
+
+(* the n raw tokens of a parser token are all non-trivia *)
+Lemma token_raw_nontrivia r n :
+  r < blen -> ntriv r = true -> jc inp n (cnt_nt r) -> 0 < n -> cnt_nt (r + n) = cnt_nt r + n.
+Proof.
+  intros Hr Hn [->|[[-> Ha]|[-> [Ha Hb]]]] _.
+  - apply cnt_nt_step. exact Hn.
+  - destruct (Hadj r Hr Hn Ha) as [H1 H2].
+    replace (r + 2) with (r + 1 + 1) by lia. rewrite (cnt_nt_step (r + 1) H2), (cnt_nt_step r Hn). lia.
+  - destruct (Hadj r Hr Hn Ha) as [H1 H2].
+    rewrite <- (cnt_nt_step r Hn) in Hb. destruct (Hadj (r + 1) H1 H2 Hb) as [H3 H4].
+    replace (r + 3) with (r + 1 + 1 + 1) by lia.
+    rewrite (cnt_nt_step (r + 1 + 1) H4), (cnt_nt_step (r + 1) H2), (cnt_nt_step r Hn). lia.
 Qed.
 
 Lemma b_step_ok x b so :
   INVB b so -> GoodOut (x :: so) -> EndsSF so -> stoksum (x :: so) <= cnt_nt blen -> stokpos x ->
+  match x with StToken _ n => jc inp n (stoksum so) | _ => True end ->
   exists b', (match x with
               | StToken k n => b_token kinds texts k n b
               | StEnter k => b_enter kinds texts k b
               | StExit => b_exit b
               | StError => b_error texts starts b
-              end) = BOk b' /\ INVB b' (x :: so) /\ (x = StExit -> bstate_ b' = PendingExit).
+              end) = BOk b' /\ INVB b' (x :: so).
 Proof.
-  intros HI HG HE Hbud Hpos. pose proof HG as [Hx HGo]. 
+  intros HI HG HE Hbud Hpos Hjc. pose proof HG as [Hx HGo]. 
   pose proof (goodout_nonempty_depth _ HGo HE) as Hso.
   pose proof HI as [Hst [Hb [Hc [Hd [HGs HEs]]]]].
   destruct x as [k| |k n|].
   - (* Enter *)
-    destruct (flush_ok b so HI HGo HE) as [b2 [E [S2 [P2 [C2 [D2 [G2 E2]]]]]]].
+    destruct (flush_ok b so HI HGo HE) as [b2 [E [S2 [P2 [C2 [D2 [G2 [E2 _]]]]]]]].
     unfold b_enter. destruct (bstate_ b) eqn:Eb; [congruence| |];
-      (rewrite E; eexists; split; [reflexivity|]; split; [|discriminate];
+      (rewrite E; eexists; split; [reflexivity|];
        unfold INVB, pend; cbn [emit bstate_ bpos bout]; rewrite S2;
        split; [discriminate|split; [lia|split; [cbn [stoksum stokn]; lia|split; [cbn [ssdepth ssctr sdepth sctr]; lia|split]]]];
        [cbn [GoodS ssdepth ssctr]; split; [lia|exact G2]|apply (ends_app [SEnter k]); exact E2]).
   - (* Exit *)
     unfold b_exit. destruct (bstate_ b) eqn:Eb; [congruence| |].
-    + eexists. split; [reflexivity|]. split; [|intros _; reflexivity].
+    + eexists. split; [reflexivity|].
       unfold INVB, pend in *. rewrite Eb in Hd. cbn [set_state bstate_ bpos bout].
       split; [discriminate|split; [lia|split; [cbn [stoksum stokn]; lia|split; [cbn [sdepth sctr]; lia|split; auto]]]].
-    + eexists. split; [reflexivity|]. split; [|intros _; cbn [emit bstate_]; exact Eb].
+    + eexists. split; [reflexivity|].
       unfold INVB, pend in *. rewrite Eb in Hd. cbn [emit bstate_ bpos bout]. rewrite Eb.
       split; [discriminate|split; [lia|split; [cbn [stoksum stokn]; lia|split; [cbn [ssdepth ssctr sdepth sctr]; lia|split]]]].
       * cbn [GoodS ssdepth ssctr]. split; [lia|exact HGs].
       * apply (ends_app [SExit]). exact HEs.
   - (* Token *)
-    destruct (flush_ok b so HI HGo HE) as [b2 [E [S2 [P2 [C2 [D2 [G2 E2]]]]]]].
+    destruct (flush_ok b so HI HGo HE) as [b2 [E [S2 [P2 [C2 [D2 [G2 [E2 Hstop]]]]]]]].
     cbn [stoksum stokn] in Hbud. cbn [stokpos] in Hpos.
     assert (bpos b2 + n <= blen) as Hfit by (apply budget_fits; lia).
+    assert (bpos b2 < blen /\ ntriv (bpos b2) = true) as [Hr Hnt].
+    { destruct Hstop as [Hs|Hs]; [lia|]. split; [lia|exact Hs]. }
+    assert (cnt_nt (bpos b2 + n) = cnt_nt (bpos b2) + n) as Hcn.
+    { apply token_raw_nontrivia; auto. rewrite C2, Hc. exact Hjc. }
     assert (do_token texts k n b2 = BOk {| bpos := bpos b2 + n; bstate_ := bstate_ b2;
               bout := SToken k (concat (firstn n (skipn (bpos b2) texts))) :: bout b2 |}) as Edo.
     { unfold do_token. replace (0 <? n) with true by (symmetry; apply Nat.ltb_lt; lia).
       replace (bpos b2 + n <=? blen) with true by (symmetry; apply Nat.leb_le; lia). reflexivity. }
     unfold b_token. destruct (bstate_ b) eqn:Eb; [congruence| |];
-      (rewrite E, Edo; eexists; split; [reflexivity|]; split; [|discriminate];
+      (rewrite E, Edo; eexists; split; [reflexivity|];
        unfold INVB, pend; cbn [bstate_ bpos bout]; rewrite S2;
        split; [discriminate|split; [lia|split; [|split; [cbn [ssdepth ssctr sdepth sctr]; lia|split]]]];
-       [pose proof (cnt_nt_add (bpos b2) n); cbn [stoksum stokn]; lia
+       [cbn [stoksum stokn]; lia
        |cbn [GoodS ssdepth ssctr]; split; [lia|exact G2]
        |apply (ends_app [SToken k _]); exact E2]).
   - (* Error *)
     unfold b_error. replace (bpos b <=? blen) with true by (symmetry; apply Nat.leb_le; lia).
-    eexists. split; [reflexivity|]. split; [|discriminate].
+    eexists. split; [reflexivity|].
     unfold INVB, pend in *. cbn [emit bstate_ bpos bout].
     split; [exact Hst|split; [lia|split; [cbn [stoksum stokn]; lia|split; [cbn [ssdepth ssctr sdepth sctr]; lia|split]]]].
     + cbn [GoodS ssdepth ssctr]. split; [destruct (bstate_ b); lia|exact HGs].
@@ -262,15 +290,20 @@ Proof. induction l as [|x l IH]; cbn [rev stoksum]; [reflexivity|]. rewrite stok
 
 Lemma bsteps_ok l : forall so b,
   INVB b so -> GoodOut (rev l ++ so) -> EndsSF so -> stoksum (rev l ++ so) <= cnt_nt blen -> Forall stokpos l ->
+  jwl inp (stoksum so) (stoksn l) ->
   exists b', b_steps kinds texts starts l b = BOk b' /\ INVB b' (rev l ++ so).
 Proof.
-  induction l as [|x l IH]; intros so b HI HG HE Hbud Hpos; [exists b; split; [reflexivity|exact HI]|].
+  induction l as [|x l IH]; intros so b HI HG HE Hbud Hpos Hj; [exists b; split; [reflexivity|exact HI]|].
   cbn [rev] in *. rewrite <- app_assoc in *. cbn [app] in *.
   inversion Hpos as [|x0 l0 Hx Hl]; subst.
-  destruct (b_step_ok x b so HI) as [b1 [E1 [HI1 _]]]; auto.
+  destruct (b_step_ok x b so HI) as [b1 [E1 HI1]]; auto.
   - apply (goodout_suffix (rev l)). exact HG.
   - rewrite stoksum_app in Hbud. lia.
-  - cbn [b_steps]. rewrite E1. apply IH; auto. apply endssf_cons. exact HE.
+  - destruct x; auto. cbn [stoksn jwl] in Hj. apply Hj.
+  - cbn [b_steps]. rewrite E1. apply IH; auto.
+    + apply endssf_cons. exact HE.
+    + destruct x; cbn [stoksn jwl stoksum stokn] in *; try exact Hj.
+      destruct Hj as [_ Hj]. replace (n_raw + stoksum so) with (stoksum so + n_raw) by lia. exact Hj.
 Qed.
 
 Lemma b_steps_app l1 l2 b :
@@ -281,24 +314,27 @@ Proof.
   destruct (match x with StEnter k => _ | StExit => _ | StToken k n => _ | StError => _ end); [apply IH|reflexivity].
 Qed.
 
-(* the whole builder on a tree-shaped step list whose tokens fit the raw token table *)
+(* the whole builder on a tree-shaped step list whose tokens are exactly the raw non-trivia
+   tokens: nothing fails and the whole table is emitted (is_eof) *)
 Theorem intersperse_total st :
-  TreeSteps (cnt_nt blen) st ->
-  exists out eof, intersperse_trivia kinds texts starts st = BOk (rev (SExit :: out), eof) /\
-                  GoodS out /\ EndsS out /\ ssdepth (SExit :: out) = 0%Z.
+  TreeSteps (cnt_nt blen) st -> jwl inp 0 (stoksn st) ->
+  exists out, intersperse_trivia kinds texts starts st = BOk (rev (SExit :: out), true) /\
+              GoodS out /\ EndsS out /\ ssdepth (SExit :: out) = 0%Z.
 Proof.
-  intros [out' [-> [HG [[o ->] [Hd [Hts Hsp]]]]]].
-  cbn [rev]. rewrite rev_app_distr. cbn [rev app].
+  intros [out' [-> [HG [[o ->] [Hd [Hts Hsp]]]]]] Hj.
+  cbn [rev] in *. rewrite rev_app_distr in *. cbn [rev app] in *.
   unfold intersperse_trivia. cbn [b_steps b_enter bstate_]. rewrite b_steps_app.
   set (b1 := emit (SEnter K_SOURCE_FILE) (set_state Normal {| bpos := 0; bstate_ := PendingEnter; bout := [] |})).
   assert (INVB b1 [StEnter K_SOURCE_FILE]) as HI1.
   { unfold INVB, pend, b1. cbn [emit set_state bstate_ bpos bout].
-    split; [discriminate|split; [lia|split; [cbn; lia|split; [reflexivity|split; [cbn; split; [lia|exact I]|exists []; reflexivity]]]]]. }
+    split; [discriminate|split; [lia|split; [reflexivity|split; [reflexivity|split; [cbn; split; [lia|exact I]|exists []; reflexivity]]]]]. }
+  cbn [stoksn] in Hj. rewrite stoksn_app in Hj. apply jwl_app in Hj. destruct Hj as [Hj _].
   destruct (bsteps_ok (rev o) [StEnter K_SOURCE_FILE] b1 HI1) as [b2 [E2 HI2]].
   - rewrite rev_involutive. exact HG.
   - exists []. reflexivity.
   - rewrite rev_involutive. lia.
   - apply Forall_rev. apply Forall_app in Hsp. apply Hsp.
+  - exact Hj.
   - rewrite E2. rewrite rev_involutive in HI2. cbn [b_steps].
     destruct HI2 as [Hst [Hb [Hc [Hdd [HGs HEs]]]]].
     cbn [sdepth sctr] in Hd.
@@ -312,11 +348,21 @@ Proof.
         cbn [ssdepth ssctr GoodS]. split; [lia|split; [split; [cbn [ssdepth ssctr]; lia|exact HGs]|]].
         apply (ends_app [SExit]). exact HEs. }
     rewrite E3, S3.
-    destruct (eat_trivias_ok blen (set_state Normal b3)) as [b4 [tr [E4 [Hp [Hc4 [Hs [Ho Ht]]]]]]];
+    destruct (eat_trivias_ok blen (set_state Normal b3)) as [b4 [tr [E4 [Hp [Hc4 [Hs [Ho [Ht Hstop]]]]]]]];
       [cbn [set_state bpos]; lia|cbn [set_state bpos]; lia|].
-    rewrite E4. cbn [set_state bout] in Ho.
+    rewrite E4. cbn [set_state bout bpos] in *.
     destruct (goods_tokens tr (bout b3) Ht G3 ltac:(lia)) as [G1 G2].
-    exists (bout b4), (bpos b4 =? blen). rewrite Ho.
+    (* everything has been emitted *)
+    assert (bpos b4 = blen) as Hend.
+    { destruct Hstop as [Hs4|Hs4]; [exact Hs4|].
+      destruct (le_lt_dec blen (bpos b4)) as [Hge|Hlt]; [lia|].
+      pose proof (cnt_nt_step (bpos b4) Hs4) as H1.
+      pose proof (cnt_nt_add (bpos b4 + 1) (blen - (bpos b4 + 1))) as H2.
+      assert (cnt_nt (bpos b4 + 1) <= cnt_nt blen) as H3.
+      { clear - Hlt. induction blen as [|n IHn]; [lia|].
+        destruct (Nat.eq_dec (bpos b4 + 1) (S n)) as [->|Hne]; [lia|]. rewrite cnt_nt_S. specialize (IHn ltac:(lia)). lia. }
+      rewrite Hc4, P3, Hc in H1. lia. }
+    exists (bout b4). rewrite Ho. replace (bpos b4 =? blen) with true by (symmetry; apply Nat.eqb_eq; exact Hend).
     split; [reflexivity|split; [exact G1|split; [apply ends_app; exact EE3|]]].
     cbn [ssdepth ssctr]. lia.
 Qed.
